@@ -749,7 +749,9 @@ def run_unit(u, tier="quick", seed=0, query_timeout_ms=None, log=print):
         if pr.error is not None:
             e = pr.error
             tb = "".join(traceback.format_exception(type(e), e, e.__traceback__)[-4:])
-            if isinstance(e, ENGINE_ERRORS) or isinstance(e, ReplayMismatch):
+            if h.allowed_exc and isinstance(e, h.allowed_exc) and not isinstance(e, (Realification, ReplayMismatch)):
+                out["aborted"]["allowed_exception"] = out["aborted"].get("allowed_exception", 0) + 1
+            elif isinstance(e, ENGINE_ERRORS) or isinstance(e, ReplayMismatch):
                 out["inconclusive"].append(f"engine limitation on a path: {type(e).__name__}: {e}\n{tb}")
             elif _harness_reads_missing_internal(e):
                 # the harness itself (not the code under test) asked a repo object for an attribute it no longer has:
